@@ -86,6 +86,50 @@ int __real_xcm_tp_socket_send(struct xcm_socket *s, const void *buf, size_t len)
 int __real_xcm_tp_socket_receive(struct xcm_socket *s, void *buf, size_t cap);
 int __real_xcm_tp_socket_finish(struct xcm_socket *s);
 
+/* ---- what btls asked of OpenSSL during the current API call (link-time seam) ----
+   nops: SSL_read/SSL_write calls; op: the last one (1 read, 2 write); res: how it ended
+   (1 success, 2 WANT_READ, 3 WANT_WRITE, 4 anything else) */
+#include <openssl/ssl.h>
+static __thread struct { int nops, op, res; } sslcur;
+static SSL *ssl_of[3];
+int __real_SSL_read(SSL *ssl, void *buf, int num);
+int __real_SSL_write(SSL *ssl, const void *buf, int num);
+int __real_SSL_get_error(const SSL *ssl, int ret);
+static void ssl_note(SSL *ssl, int op, int rc)
+{
+    int c = shim_ctx();
+    if (c >= 1 && c <= 2)
+	ssl_of[c] = ssl;
+    sslcur.nops++;
+    sslcur.op = op;
+    sslcur.res = rc > 0 ? 1 : 4;
+}
+int __wrap_SSL_read(SSL *ssl, void *buf, int num)
+{
+    int rc = __real_SSL_read(ssl, buf, num);
+    int e = errno;
+    ssl_note(ssl, 1, rc);
+    errno = e;
+    return rc;
+}
+int __wrap_SSL_write(SSL *ssl, const void *buf, int num)
+{
+    int rc = __real_SSL_write(ssl, buf, num);
+    int e = errno;
+    ssl_note(ssl, 2, rc);
+    errno = e;
+    return rc;
+}
+int __wrap_SSL_get_error(const SSL *ssl, int ret)
+{
+    int e = errno;
+    int r = __real_SSL_get_error(ssl, ret);
+    if (sslcur.nops > 0 && sslcur.res != 1)
+	sslcur.res = r == SSL_ERROR_WANT_READ ? 2 : r == SSL_ERROR_WANT_WRITE ? 3 : 4;
+    errno = e;
+    return r;
+}
+
 struct lsum { long wu; int wt; long ru; int rt; int frc; int ferr; int n; };
 static __thread struct lsum lcur;	/* calls the framing layer (tcp/tls) made to the layer below, this API call */
 
@@ -326,7 +370,7 @@ static void emit_begin(const char *op, int e)
 
 static void emit_noio(void)
 {
-    fprintf(out, ",\"k\":[0,0,0,0,0],\"lg\":[0,0,0,0,1,0,0],\"w\":%d", shim_wait_seen());
+    fprintf(out, ",\"k\":[0,0,0,0,0],\"lg\":[0,0,0,0,1,0,0],\"ssl\":[0,0,0,-1],\"w\":%d", shim_wait_seen());
 }
 
 static void emit_end(void)
@@ -340,9 +384,11 @@ static void emit_io(int e)
     if (kfd[e] >= 0)
 	io = shim_io_get(kfd[e]);
     struct lsum l = l1_summary();
-    fprintf(out, ",\"k\":[%ld,%d,%ld,%d,%ld],\"lg\":[%ld,%d,%ld,%d,%d,%d,%d],\"w\":%d",
+    /* SSL_has_pending as the library's update() saw it at the end of the call (nothing has touched the object since) */
+    int hp = (e >= 1 && e <= 2 && ssl_of[e] != NULL && ep[e] != NULL) ? SSL_has_pending(ssl_of[e]) : -1;
+    fprintf(out, ",\"k\":[%ld,%d,%ld,%d,%ld],\"lg\":[%ld,%d,%ld,%d,%d,%d,%d],\"ssl\":[%d,%d,%d,%d],\"w\":%d",
 	    io.wu, io.wt, io.ru, io.rt, io.rlast,
-	    l.wu, l.wt, l.ru, l.rt, l.frc, l.ferr, l.n, shim_wait_seen());
+	    l.wu, l.wt, l.ru, l.rt, l.frc, l.ferr, l.n, sslcur.nops, sslcur.op, sslcur.res, hp, shim_wait_seen());
 }
 
 /* ---- crash handling ------------------------------------------------------ */
@@ -414,6 +460,7 @@ static int setup(const char *tpname, const char *mode)
 
     close_all();
     shim_reset();
+    ssl_of[1] = ssl_of[2] = NULL;
     snprintf(tp, sizeof(tp), "%s", tpname);
     raw_mode = strcmp(mode, "raw") == 0;
     is_stream = strcmp(tp, "btcp") == 0 || strcmp(tp, "btls") == 0;
@@ -614,7 +661,7 @@ static void emit_lsum(int e, struct lsum l)
     struct shim_io io = { 0 };
     if (kfd[e] >= 0)
 	io = shim_io_get(kfd[e]);
-    fprintf(out, ",\"k\":[%ld,%d,%ld,%d,%ld],\"lg\":[%ld,%d,%ld,%d,%d,%d,%d],\"w\":%d",
+    fprintf(out, ",\"k\":[%ld,%d,%ld,%d,%ld],\"lg\":[%ld,%d,%ld,%d,%d,%d,%d],\"ssl\":[0,0,0,-1],\"w\":%d",
 	    io.wu, io.wt, io.ru, io.rt, io.rlast,
 	    l.wu, l.wt, l.ru, l.rt, l.frc, l.ferr, l.n, 0);
 }
@@ -828,6 +875,7 @@ static void plan(int e, long wc, int werr, long rc, int rerr)
 	shim_io_reset(kfd[e]);
     }
     lreset();
+    memset(&sslcur, 0, sizeof(sslcur));
     shim_wait_seen();
     shim_nonblock_watch(true);
 }
@@ -1089,6 +1137,7 @@ static void do_close(int e, int rst)
 	shim_nonblock_watch(false);
 	ep[e] = NULL;
 	kfd[e] = -1;
+	ssl_of[e] = NULL;
     }
     /* let the FIN / RST reach the other end */
     int p = 3 - e;
